@@ -17,7 +17,7 @@ import re
 from sa import ir, cfg, witness
 from sa.ir import fmt, walk, short
 from sa.extract import VERIF
-from .common import callgraph, elem_calls
+from .common import callgraph, elem_calls, tree_effects
 
 SEVS = ["trace", "debug", "info", "warn", "error", "fatal"]
 SS = "nitro::log::detail::smart_stream"
@@ -57,7 +57,7 @@ def run(ctx):
     minima = list(range(6)) if ctx.tier == "thorough" else [0, 1, 2, 5]
     cells = 0
     for i in minima:
-        res = witness.apply(ctx, lambda t: "R10.3" if (t or "").startswith("m") else "R10.1", wp,
+        res = witness.apply(ctx, lambda t: "R10.3" if (t or "").startswith("m") else ("R10.4" if (t or "").startswith("a") else "R10.1"), wp,
                             defines=("NITRO_LOG_MIN_SEVERITY=" + SEVS[i], "VERIF_MIN_IDX=%d" % i), label="min=" + SEVS[i])
         cells += len(res["tags"])
         if ctx.tier == "thorough":
@@ -264,6 +264,21 @@ def run(ctx):
     ctx.check(callers["will_log"] <= {SS + "::<ctor>"}, "R10.4", "nitro::log::logger::will_log", "only-constructor-filters", "logger::will_log is called from %s" % sorted(callers["will_log"]), "-")
     ctx.check(callers["sink"] <= {"nitro::log::logger::log"} and len(callers["sink"]) == 1, "R10.4", "Sink::sink", "only-log-calls-sink", "Sink::sink is called from %s" % sorted(callers["sink"]), "-")
     ctx.check(callers["format"] <= {"nitro::log::logger::log"} and len(callers["format"]) == 1, "R10.4", "Formatter::format", "only-log-calls-formatter", "Formatter::format is called from %s" % sorted(callers["format"]), "-")
+    # one record, one sink call: logger::log hands the record to the formatter and the result to the sink exactly once on every
+    # path, outside any loop, and does not rewrite the record (a record split into several sink calls is several lock scopes)
+    for f in logf:
+        loopb = set()
+        for h, body in cfg.loop_blocks(f):
+            loopb |= set(body)
+        for what in ("sink", "format"):
+            sites = [(bid, i, e) for bid, i, e in f.roots() if any(n.get("k") == "call" and short(n.get("name") or "") == what and (n.get("name") or "").split("::")[0] != "std" for n in walk(e["expr"]))]
+            once = len(sites) == 1 and sites[0][0] not in loopb and cfg.must_happen_before_exit(f, lambda el, t=sites[0][2]: el is t)[0]
+            ctx.check(once, "R10.4", f, "log-calls-%s-once" % what,
+                      "logger::log calls %s %s: one log statement is not handed over as exactly one record (a record emitted in several pieces takes and releases the sink's lock once per piece, "
+                      "another thread's record can land in between)" % (what, "%d times" % len(sites) if len(sites) != 1 else "inside a loop / not on every path"), f)
+        rp = f.params[1]["name"] if len(f.params) > 1 else "r"
+        wr = [fmt(lv) for _, _, e in f.roots() for eff, lv, n in tree_effects(e["expr"]) if eff in ("write", "maybe_write") and lv is not None and re.match(r"\(?%s\b" % re.escape(rp), fmt(lv))]
+        ctx.check(not wr, "R10.4", f, "log-leaves-record-alone", "logger::log writes %s: what reaches the formatter is no longer the record the statement built" % wr, f)
     # the runtime filter that decides is the one that was configured for THIS logger (R05.4's threshold rule re-evaluated)
     if ctx.prop == "C10" and not getattr(ctx, "_sharing", False):
         from .common import share
